@@ -125,6 +125,9 @@ struct Doc {
     all_fonts: bool,
     rgb: Vec<(u8, u8, u8)>,
     layers: Vec<LayerM>,
+    /// storage shape of layer 0 / the terminal size (icyv::shape, 0 = as built)
+    #[serde(default)]
+    shape: u8,
 }
 
 impl Doc {
@@ -229,6 +232,10 @@ fn build(d: &Doc) -> Built {
         // hide last: Layer::set_char ignores writes to hidden layers
         layer.properties.is_visible = lm.visible;
         buf.layers.push(layer);
+    }
+    // the optimiser is judged against the document as it is stored: the perturbation happens before both renderings
+    if d.shape != 0 && !buf.layers.is_empty() {
+        icyv::shape::perturb(&mut buf, d.shape);
     }
     Built { buf, slot_page }
 }
@@ -419,7 +426,8 @@ fn check_doc(d: &Doc) -> Verdict {
         "nothing_rewritten".to_string()
     } else {
         format!(
-            "{}{}",
+            "{}{}{}",
+            if d.shape % icyv::shape::CODES != 0 { "shaped+" } else { "" },
             if visible_layers > 1 { "multi_layer" } else { "single_layer" },
             if facts.mixed_height {
                 "+mixed_font_height"
@@ -501,11 +509,12 @@ fn docs() -> BoxedStrategy<Doc> {
         prop::bool::weighted(0.03),
         prop::collection::vec(any::<(u8, u8, u8)>(), 0..=4),
         layers,
+        prop_oneof![3 => Just(0u8), 2 => 1u8..icyv::shape::CODES],
     )
-        .prop_map(|(w, h, slot0_page, more, all_fonts, rgb, layers)| {
+        .prop_map(|(w, h, slot0_page, more, all_fonts, rgb, layers, shape)| {
             let mut slots = vec![0u8];
             slots.extend(more);
-            Doc { w, h, slot0_page, slots, all_fonts, rgb, layers }
+            Doc { w, h, slot0_page, slots, all_fonts, rgb, layers, shape }
         })
         .boxed()
 }
@@ -513,6 +522,9 @@ fn docs() -> BoxedStrategy<Doc> {
 /// simpler candidates (tried greedily by the engine after proptest's own shrinking)
 fn minimize(d: &Doc) -> Vec<Doc> {
     let mut out = Vec::new();
+    if d.shape != 0 {
+        out.push(Doc { shape: 0, ..d.clone() });
+    }
     // fewer layers
     if d.layers.len() > 1 {
         for i in 0..d.layers.len() {
@@ -666,6 +678,7 @@ fn strip_doc(s: &Strip) -> Doc {
         all_fonts: false,
         rgb: vec![(1, 2, 3)],
         layers: vec![LayerM { w: 5, h: 2, ox: 0, oy: 0, alpha: false, visible: true, dfp: 0, rows }],
+        shape: 0,
     }
 }
 
@@ -691,7 +704,8 @@ fn main() {
     eng.rule(
         "documents: 1..=12 x 1..=6 cells, 1..=4 Normal-mode layers (alpha channel, offset -3..8/-2..4, own size, hidden, default font page), cells = glyph (NUL/space/255/219, \
          every glyph the harness classifies all-clear or all-set in the cell's font, any of 0..=255) x fg/bg (16 palette colours, up to 4 RGB colours inserted into the palette) x bold x \
-         font slot (up to 3 slots per document holding any of the 43 built-in pages, slot 0 may hold any page, so 8- and 16-row fonts mix) x visible/invisible cell. \
+         font slot (up to 3 slots per document holding any of the 43 built-in pages, slot 0 may hold any page, so 8- and 16-row fonts mix) x visible/invisible cell x \
+         storage shape of layer 0 (40%: extra lines below, rows longer than the width, layer larger than the buffer, terminal size != buffer size, unallocated trailing cells). \
          strips (exhaustive): 43 pages x 256 glyphs x 8 neighbour attributes (other fg, other bg, bold) x {page in slot 0, page in its own slot}: a 5x2 document with the glyph under test \
          after a mixed glyph, after itself, at the line end and at the line start. Both normalize_whitespaces settings are evaluated for every case. \
          Non-trivial (documents): the composited picture has >= 1 all-clear glyph with foreground != 7 whose scan-order predecessor has another foreground AND >= 1 all-set glyph; \
